@@ -19,6 +19,7 @@ Line protocol of the C17 model (R = Rat).
   heatk <N> <dx> <dt> <k> <u0> <obs> -> `same=<0|1> u=<vec>` (given step count/size)
   abel  <n> <endpoint>          -> `asm=<mat> doc=<mat>` squares of the entries
   wang  <x0> <x1>               -> `f=<q> j=<q>,<q> d=<q>,<q>` (forward, coded Jacobian, symbolic derivative)
+  wangopt <data|none> <std|none> -> `data=<q> std=<q>` the data / noise level the problem must use
   noise <type> <sigma> <y> <xi> -> `path=<vec> doc=<vec>` | `err:zero-cov` | `err:type`
   snr   <sigma> <snr> <tol> <y> <xi> -> `ok=<0|1> data=<vec>`
   quad  <cov> <dev>             -> `Σ dev²/cov`  (cov of length 1 is broadcast)
@@ -152,6 +153,11 @@ def step : List String → String
       let ρ := RExpr.envQ [a, b]
       let ev (e : RExpr) : String := match RExpr.evalQ ρ e with | some q => fmtRat q | none => "nan"
       s!"f={ev wangF} j={",".intercalate (wangJ.map ev)} d={ev (RExpr.deriv 0 wangF)},{ev (RExpr.deriv 1 wangF)}"
+    | _, _ => "bad-op"
+  | ["wangopt", d, sd] =>
+    let po (t : String) : Option (Option Rat) := if t = "none" then some none else (parseRat t).map some
+    match po d, po sd with
+    | some d, some sd => s!"data={fmtRat (wangData d)} std={fmtRat (wangStd sd)}"
     | _, _ => "bad-op"
   | ["noise", ty, s, y, xi] =>
     match parseRat s, parseVec y, parseVec xi with
